@@ -137,6 +137,67 @@ theorem foldE_tiles_err {σ} (body : Nat × Nat → σ → Except Err σ) (P : N
     · refine Or.inr ⟨e, ?_, hq⟩
       rw [hse]; simp only [foldE, hb]
 
+/-- `foldE_tiles` whose step may use that the piece is one of the list -/
+theorem foldE_tiles_mem {σ} (body : Nat × Nat → σ → Except Err σ) (P : Nat → σ → Prop) (b : Nat) :
+    ∀ (subs : List (Nat × Nat)) (a : Nat) (s : σ), Tiles subs a b → P a s →
+      (∀ x y s, (x, y) ∈ subs → a ≤ x → x < y → y ≤ b → P x s → ∃ s', body (x, y) s = .ok s' ∧ P y s') →
+      ∃ s', foldE body subs s = .ok s' ∧ P b s' := by
+  intro subs
+  induction subs with
+  | nil =>
+    intro a s ht hp _
+    simp only [Tiles] at ht; subst ht
+    exact ⟨s, rfl, hp⟩
+  | cons se rest ih =>
+    intro a s ht hp hstep
+    obtain ⟨h1, h2, h3⟩ := ht
+    have hle := Tiles.le h3
+    have hse : se = (a, se.2) := by cases se; simp_all
+    obtain ⟨s1, hb, hp1⟩ := hstep a se.2 s (by rw [← hse]; exact List.mem_cons_self) (Nat.le_refl _) h2 hle hp
+    obtain ⟨s2, hf, hp2⟩ := ih se.2 s1 h3 hp1
+      (fun x y s hmem hx hxy hy hP => hstep x y s (List.mem_cons_of_mem _ hmem) (by omega) hxy hy hP)
+    refine ⟨s2, ?_, hp2⟩
+    rw [hse]
+    simp only [foldE, hb]
+    exact hf
+
+/-- `foldE_tiles_err` whose step may use that the piece is one of the list -/
+theorem foldE_tiles_err_mem {σ} (body : Nat × Nat → σ → Except Err σ) (P : Nat → σ → Prop) (Q : Err → Prop) (b : Nat) :
+    ∀ (subs : List (Nat × Nat)) (a : Nat) (s : σ), Tiles subs a b → P a s →
+      (∀ x y s, (x, y) ∈ subs → a ≤ x → x < y → y ≤ b → P x s →
+        (∃ s', body (x, y) s = .ok s' ∧ P y s') ∨ (∃ e, body (x, y) s = .error e ∧ Q e)) →
+      (∃ s', foldE body subs s = .ok s' ∧ P b s') ∨ (∃ e, foldE body subs s = .error e ∧ Q e) := by
+  intro subs
+  induction subs with
+  | nil =>
+    intro a s ht hp _
+    simp only [Tiles] at ht; subst ht
+    exact Or.inl ⟨s, rfl, hp⟩
+  | cons se rest ih =>
+    intro a s ht hp hstep
+    obtain ⟨h1, h2, h3⟩ := ht
+    have hle := Tiles.le h3
+    have hse : se = (a, se.2) := by cases se; simp_all
+    rcases hstep a se.2 s (by rw [← hse]; exact List.mem_cons_self) (Nat.le_refl _) h2 hle hp with
+      ⟨s1, hb, hp1⟩ | ⟨e, hb, hq⟩
+    · rcases ih se.2 s1 h3 hp1
+          (fun x y s hmem hx hxy hy hP => hstep x y s (List.mem_cons_of_mem _ hmem) (by omega) hxy hy hP) with
+        ⟨s2, hf, hp2⟩ | ⟨e, hf, hq⟩
+      · refine Or.inl ⟨s2, ?_, hp2⟩
+        rw [hse]; simp only [foldE, hb]; exact hf
+      · refine Or.inr ⟨e, ?_, hq⟩
+        rw [hse]; simp only [foldE, hb]; exact hf
+    · refine Or.inr ⟨e, ?_, hq⟩
+      rw [hse]; simp only [foldE, hb]
+
+/-- the valid (non-marker) entries at the positions `[s, e)` of a map chunk are non-decreasing — what one sub-chunk of
+    the splitter guarantees for ANY map (NC02a), and all that the per-sub-chunk mapping needs -/
+def MonoOn (m : List Int) (inv : Int) (s e : Nat) : Prop :=
+  ∀ (i j : Nat) (a b : Int), s ≤ i → i ≤ j → j < e → m[i]? = some a → m[j]? = some b → a ≠ inv → b ≠ inv → a ≤ b
+
+theorem MonoOn.of_validMonotone {m : List Int} {inv : Int} (h : Spec.ValidMonotone m inv) (s e : Nat) : MonoOn m inv s e :=
+  fun i j a b _ hij _ hi hj ha hb => h i j a b hij hi hj ha hb
+
 /-! ### `next_map_subchunk` -/
 
 theorem scanWhile_ge (p : Int → Bool) : ∀ (l : List Int) (sm : Nat), sm ≤ scanWhile p l sm
@@ -160,13 +221,48 @@ theorem scanWhile_head_true (p : Int → Bool) (x : Int) (xs : List Int) (sm : N
   simp only [scanWhile, h, if_true]
   exact scanWhile_ge p xs (sm + 1)
 
+theorem scanAsc_ge (inv start : Int) (cs : Nat) : ∀ (l : List Int) (prev : Int) (sm : Nat),
+    sm ≤ scanAsc inv start cs prev l sm
+  | [], _, sm => by simp [scanAsc]
+  | x :: xs, prev, sm => by
+    simp only [scanAsc]
+    split
+    · split
+      · split
+        · omega
+        · have := scanAsc_ge inv start cs xs x (sm + 1); omega
+      · have := scanAsc_ge inv start cs xs prev (sm + 1); omega
+    · omega
+
+theorem scanAsc_le (inv start : Int) (cs : Nat) : ∀ (l : List Int) (prev : Int) (sm : Nat),
+    scanAsc inv start cs prev l sm ≤ sm + l.length
+  | [], _, sm => by simp [scanAsc]
+  | x :: xs, prev, sm => by
+    simp only [scanAsc, List.length_cons]
+    split
+    · split
+      · split
+        · omega
+        · have := scanAsc_le inv start cs xs x (sm + 1); omega
+      · have := scanAsc_le inv start cs xs prev (sm + 1); omega
+    · omega
+
+/-- the first entry of the second loop is `start` itself (`prev = start`): it is always taken when `chunksize ≥ 1` -/
+theorem scanAsc_head (inv start : Int) (cs : Nat) (xs : List Int) (sm : Nat) (hcs : 1 ≤ cs) :
+    sm + 1 ≤ scanAsc inv start cs start (start :: xs) sm := by
+  have h0 : start - start < (cs : Int) := by omega
+  simp only [scanAsc, h0, if_true, Int.lt_irrefl, if_false]
+  split
+  · exact scanAsc_ge inv start cs xs start (sm + 1)
+  · exact scanAsc_ge inv start cs xs start (sm + 1)
+
 /-- the splitter always makes progress (for `chunksize ≥ 1`) and stays inside the map chunk -/
 theorem nextMapSubchunk_bounds (m : List Int) (sm : Nat) (inv : Int) (cs : Nat) (hsm : sm < m.length) (hcs : 1 ≤ cs) :
     sm < nextMapSubchunk m sm inv cs ∧ nextMapSubchunk m sm inv cs ≤ m.length := by
   have heq : nextMapSubchunk m sm inv cs =
       match m[scanWhile (fun x => x == inv) (m.drop sm) sm]? with
       | none => scanWhile (fun x => x == inv) (m.drop sm) sm
-      | some start => scanWhile (fun x => decide (x - start < (cs : Int)))
+      | some start => scanAsc inv start cs start
           (m.drop (scanWhile (fun x => x == inv) (m.drop sm) sm)) (scanWhile (fun x => x == inv) (m.drop sm) sm) := rfl
   rw [heq]
   have h1 := scanWhile_ge (fun x => x == inv) (m.drop sm) sm
@@ -182,10 +278,9 @@ theorem nextMapSubchunk_bounds (m : List Int) (sm : Nat) (inv : Int) (cs : Nat) 
     have hlt : sm1 < m.length := (List.getElem?_eq_some_iff.mp hg).1
     have hd : m.drop sm1 = start :: m.drop (sm1 + 1) := by
       rw [List.drop_eq_getElem_cons hlt, (List.getElem?_eq_some_iff.mp hg).2]
-    have h4 := scanWhile_le (fun x => decide (x - start < (cs : Int))) (m.drop sm1) sm1
+    have h4 := scanAsc_le inv start cs (m.drop sm1) start sm1
     simp only [List.length_drop] at h4
-    have h5 := scanWhile_head_true (fun x => decide (x - start < (cs : Int))) start (m.drop (sm1 + 1)) sm1
-      (by simp; omega)
+    have h5 := scanAsc_head inv start cs (m.drop (sm1 + 1)) sm1 hcs
     rw [← hd] at h5
     omega
 
